@@ -128,7 +128,7 @@ def _run_paging(case, obs):
 
     def get(url, *a_, **kw):
         r = orig_get(url, *a_, **kw)
-        hrefs.append(r.json()["_links"].get("next", {}).get("href"))
+        hrefs.append((r.json().get("_links") or {}).get("next", {}).get("href"))
         return r
 
     fake.get = get
